@@ -1,3 +1,4 @@
+import Firebolt.Properties.TransBase
 import Firebolt.Properties.ExecFlow
 import Firebolt.Spec.ExecTrace
 import Firebolt.Generated.Skeleton
@@ -170,6 +171,25 @@ theorem source_withConfig : GeneratedSrc.withConfig = ExpectedSrc.withConfig := 
 
 /-! ### influence closure: the pinned functions, and every function of the repository that writes a struct field or package
 variable they read, are unchanged (digests regenerated from /repo on every run; a difference names the functions) -/
+/-! ### The code itself, translated (`Generated/Trans.lean`, rewritten from /repo on every run by extractor/translate.go)
+
+The `translated_*` theorems are about MiniGo terms the translator produced from the current Go source: for every
+environment the translated fragment does what the hand-written model function says.  They are semantic obligations —
+a rewrite that preserves the behaviour keeps them provable, a changed comparison, bound or argument does not. -/
+section Translated
+open Firebolt.MiniGo Firebolt.TransBase
+
+/-- handleResult, translated from the source: an error goes to handleFailure only; an empty result counts as filtered and
+reaches no child; anything else counts as processed once and is handed to every child -/
+theorem translated_handleResult (σ : Env) :
+    obs Trans.handleResult σ =
+      if σ "err" ≠ 0 then ⟨[("nc.handleFailure", [σ "event", σ "err"])], none, false⟩
+      else if σ "len(result)" = 0 then ⟨[("metrics.Node().Filtered.WithLabelValues(nc.Config.ID).Inc", [])], none, false⟩
+      else ⟨[("metrics.Node().Successes.WithLabelValues(nc.Config.ID).Inc", []),
+             ("foreach nc.Children: nc.deliverToChild", [σ "childNode", σ "result"])], none, false⟩ := by
+  by_cases h1 : σ "err" = 0 <;> by_cases h2 : σ "len(result)" = 0 <;> minigo_simp [Trans.handleResult, h1, h2]
+end Translated
+
 theorem closure_unchanged : GeneratedClo.C01 = ExpectedClo.C01 := by rfl
 
 end Firebolt.C01
